@@ -21,10 +21,10 @@ func init() {
 			"hot initial stores are final states of a previous run of the same parameter set (any non-negative S<=x1, R, and unit-hydrograph stores)",
 		},
 		Workloads: []core.Workload{
-			{Name: "gr4j", Variant: "plain", N: core.Tiered(300, 150000), Run: c15Case},
+			{Name: "gr4j", Variant: "plain", N: core.Tiered(900, 150000), Run: c15Case},
 			// several cells with different x4 in one state array (rows padded to the widest), simulated as consecutive
 			// windows that carry the states, on Go-backed arrays or caller-owned C buffers; every cell against its own reference
-			{Name: "gr4j-multicell", Variant: "plain", N: core.Tiered(120, 20000), Run: c15Multi},
+			{Name: "gr4j-multicell", Variant: "plain", N: core.Tiered(360, 20000), Run: c15Multi},
 		},
 		RequireTags: func(string) []string { return []string{"x4<1", "x4>2", "x4-integer", "hot", "multicell:padded-rows", "multicell:c-memory"} },
 	})
